@@ -18,7 +18,7 @@ func init() {
 		Title: "Close stops everything and strands no caller",
 		Run:   runC12,
 		Meta: core.PropertyMeta{
-			Explanation: "X1: Close's effects are inside closeOnce.Do; inside, every node of the pool is closed (unfiltered range); RawNode.close cancels the node context before closing the connection and handles a missing connection. X2: every client-side library goroutine (sender, receiver, sendMsg's watcher) observes the node context: every cycle of its loops passes a select with a case on parentCtx.Done() that leads to return, and every blocking operation it can execute is such a select, a stream operation on a stream whose context derives from parentCtx (C10-N2), transport-bounded, a short mutex hold, or bounded by such an operation. X3: a call issued at/after Close is answered by enqueue with an error (C07-E3 re-run for enqueue). X4: a request that enqueue managed to queue is consumed: the queue is unbuffered on every construction path, or the sender drains it before it returns. X5: on the Close path every call through a function-valued field and every method call on a pointer field that some manager option leaves unset is preceded by a nil test. X6: pending calls fail when the stream dies (C07-E4 re-run). X7: client connections are created at one site, under a lock that close() also takes, after a test of a 'closed' flag that close() sets under that lock - so no connection is created behind Close's back.",
+			Explanation: "X1: Close's effects are inside closeOnce.Do; inside, every node of the pool is closed (unfiltered range); RawNode.close cancels the node context before closing the connection and handles a missing connection. X2: every client-side library goroutine (sender, receiver, sendMsg's watcher) observes the node context: every cycle of its loops passes a select with a case on parentCtx.Done() that leads to return, and every blocking operation it can execute is such a select, a stream operation on a stream whose context derives from parentCtx (C10-N2), transport-bounded, a short mutex hold, or bounded by such an operation. X3: a call issued at/after Close is answered by enqueue with an error (C07-E3 re-run for enqueue). X4: a request that enqueue managed to queue is consumed: the queue is unbuffered on every construction path, or the sender drains it before it returns. X5: on the Close path every call through a function-valued field and every method call on a pointer field that some manager option leaves unset is preceded by a nil test. X6: pending calls fail when the stream dies (C07-E4 re-run). X7: client connections are created at one site, under a lock that close() also takes, after a test of a 'closed' flag that close() sets under that lock - so no connection is created behind Close's back. X8: the stream reader returns only after failing every pending call (every path from a read to a return passes the fail-all routine). X9: a closed manager takes no new nodes: Close marks the manager closed under the pool lock before it reads the pool, and every insertion into the pool tests that mark in the insertion's critical section.",
 			NotDecided:  "That gRPC tears connections down 'within bounded time'; goroutines of user handlers.",
 			Trusted:     append([]string{"cancelling parentCtx cancels every stream context derived from it and makes stream operations return", "sync.Once"}, commonTrust...),
 		},
